@@ -441,7 +441,6 @@ package mpb
 //@              ==> dw(written(w)) == old(dw(written(w))) + allot(stat.RequestedWidth, stat.AvailableWidth)
 //@   ensures  exact@!C08: allot(stat.RequestedWidth, stat.AvailableWidth) > s.components[iLbound].width + s.components[iRbound].width && result == nil
 //@              ==> dw(written(w)) == old(dw(written(w))) + allot(stat.RequestedWidth, stat.AvailableWidth)
-//@   ensures  fits@!C08: dw(written(w)) - old(dw(written(w))) <= max(0, stat.AvailableWidth)
 
 //@ func (BarFillerFunc).Fill
 //@   props    C07
@@ -848,6 +847,7 @@ package mpb
 //@              && (frame.shutdown != 1 ==> called("Bar.cancel") == iter(called("Bar.cancel")))
 //@   loop 1   ensures priority: frame.shutdown != 1 ==> s.popPriority == iter(s.popPriority) && b.priority == iter(now(b).priority)
 //@   loop 1   ensures clip: len(rows) == iter(len(rows)) + min(len(frame.rows), height - iter(len(rows)))
+//@   loop 1   ensures visible@C18: popCount > iter(popCount) ==> s.delayRC == nil // a bar is popped out only into frames that are really written (not while a render delay discards them)
 //@   loop 1   ensures shown@C18: frame.shutdown == 2 && s.popCompleted && !frame.noPop ==> len(rows) - iter(len(rows)) == len(frame.rows)
 //@   loop 1   ensures nopoponkeep: !(frame.shutdown == 2 && s.popCompleted && !frame.noPop) ==> popCount == iter(popCount)
 //@   loop 2   invariant forall(k, 0, len(pushes), pushes[k].bar != nil) && !closed(s.hm)
